@@ -126,6 +126,7 @@ type dpCtx struct {
 	reindexTA  bool   // ... after a receive had appended behind a torn tail
 	rowNoData  string // ref whose row the crash left without (all of) its data
 	refilled   bool   // ... and another blob was appended since, so that the stale extent is inside the file again
+	staleDel   bool   // ... and then the blob was removed through its stale row (rewrites what is there now)
 	delRef     string // ref of the crashed removal
 	delBody    bool   // its body was zeroed
 	delHdr     bool   // its header was rewritten
@@ -198,6 +199,13 @@ func (o *dpOracle) signature(class, ref string, observed []byte) string {
 		case "fetch-wrong-body", "acked-blob-not-streamed", "acked-blob-lost", "acked-blob-not-enumerated", "stat-wrong":
 			// the duplicate check compares sizes only: once other data fills the stale extent, the retry of the
 			// blob is acknowledged without being stored
+			return "dp-stale-row-extent-refilled-retry-acknowledged"
+		}
+	}
+	if c.refilled && c.staleDel {
+		switch class {
+		case "fetch-wrong-body", "stream-wrong-body", "acked-blob-not-streamed", "acked-blob-lost", "acked-blob-not-enumerated", "stat-wrong":
+			// RemoveBlobs through the stale row rewrote / zeroed the bytes of whatever blob now lies there
 			return "dp-stale-row-extent-refilled-retry-acknowledged"
 		}
 	}
@@ -388,6 +396,9 @@ func (g *gen) dpSess(o *dpOracle, subs []string, blobs [][]blobT) string {
 			}
 		case "done":
 			for _, b := range bs {
+				if o.ctx.refilled && b.ref == o.ctx.rowNoData {
+					o.ctx.staleDel = true
+				}
 				if o.status[b.ref] != stNever {
 					o.status[b.ref] = stRemoved
 				}
@@ -500,7 +511,7 @@ func (g *gen) scenarioAppendCrash(idx int) {
 	g.dpHistory(o, rnd.Intn(4))
 	var x blobT
 	switch {
-	case len(o.withStatus(stRemoved)) > 0 && rnd.Chance(20):
+	case len(o.withStatus(stRemoved)) > 0 && (idx%5 == 4 || rnd.Chance(20)):
 		ref := o.withStatus(stRemoved)[0]
 		x = blobT{ref, o.body[ref]}
 	case len(o.withStatus(stAcked)) > 0 && rnd.Chance(10):
@@ -1075,6 +1086,12 @@ func (g *gen) scenarioFsCrash(idx int, failing bool) {
 		g.op("fs.put /r/cache/sha1-0beec7b5ea3f0fdbc95d0dd47f3c5bc275da8a33.dat 616161")
 	}
 	g.fsHistory(o, rnd.Intn(4))
+	if idx%4 == 1 {
+		// a duplicate receive of an acknowledged blob is crashed in every run, whatever the seed
+		b := mkBlob(rnd, genBody(rnd, r.Thorough()))
+		o.add(b)
+		g.fsRecv(o, b)
+	}
 	var x blobT
 	var acked, removed []string
 	for _, ref := range o.order {
@@ -1088,13 +1105,16 @@ func (g *gen) scenarioFsCrash(idx int, failing bool) {
 	switch {
 	case len(removed) > 0 && rnd.Chance(25):
 		x = blobT{removed[0], o.body[removed[0]]}
-	case len(acked) > 0 && rnd.Chance(15):
-		x = blobT{acked[0], o.body[acked[0]]}
+	case len(acked) > 0 && (idx%4 == 1 || rnd.Chance(15)):
+		x = blobT{acked[len(acked)-1], o.body[acked[len(acked)-1]]}
 	default:
 		x = mkBlob(rnd, genBody(rnd, r.Thorough()))
 		o.add(x)
 	}
 	prior := o.status[x.ref]
+	if prior == stAcked {
+		r.Hit("fs:crash-of-duplicate-receive")
+	}
 	var line string
 	if failing {
 		fk := failKinds[idx%len(failKinds)]
@@ -1280,7 +1300,8 @@ func Run(r *hk.Run) {
 	g := newGen(r)
 	r.Res.Rule = "cases: diskpacked (real store via CreateStorage on temp dirs; every op = materialise state, open, run, close, read back): " +
 		"(a) random receive/remove history, one more receive, then EVERY chosen crash point of it (kept bytes 0,1,hdr-1,hdr,hdr+1,total-1 + 8 random; " +
-		"thorough: every byte for bodies <= 64) x row/no row x rolled-over pack/not, each followed by restart, Fetch/Stat/Enumerate/StreamBlobs of the whole universe, " +
+		"thorough: every byte for bodies <= 64) x row/no row x rolled-over pack/not, plus the states 'row present, data cut' (cut inside the header, at its end, after 0/1/half/size-1 body bytes), " +
+		"each followed by the client's RETRY of the same blob (directly, after Reindex fresh, after Reindex over: an acknowledged retry must leave the blob fetched intact, stat-ed with its size and enumerated) and by restart, Fetch/Stat/Enumerate/StreamBlobs of the whole universe, " +
 		"Reindex from the packs alone, further receives/removes and a second Reindex; (b) a removal run on the real code with the pack files PHOTOGRAPHED at its real write boundaries " +
 		"(entry/exit of delete's body reclaim via the verif hook VerifSetPunchHole: real hole punch, delete's own zero fill, or a half-done zero fill of a blob of 0.7-80 KiB; entry to CommitBatch; return), " +
 		"every photo restarted with the index as left, with Reindex fresh/over, with StreamBlobs, then further operations; plus all 8 subset states of {header rewritten, body reclaimed, row deleted}, " +
